@@ -50,6 +50,10 @@ def perturbations(vp):
     out.append(("pixel_aspect_ratio", dict(pixel_aspect_ratio_numer=5, pixel_aspect_ratio_denom=7)))
     out.append(("clean_area", dict(clean_width=w - 8, clean_height=h - 4, left_offset=4, top_offset=2)))
     out.append(("clean_area", dict(clean_width=w - 8, clean_height=h, left_offset=0, top_offset=0)))
+    # the legal lower boundary: an empty clean area (zero width and / or height)
+    out.append(("clean_area", dict(clean_width=0, clean_height=h, left_offset=0, top_offset=0)))
+    out.append(("clean_area", dict(clean_width=w, clean_height=0, left_offset=0, top_offset=0)))
+    out.append(("clean_area", dict(clean_width=0, clean_height=0, left_offset=w, top_offset=h)))
     for i, sr in sorted(PRESET_SIGNAL_RANGES.items()):
         out.append(("signal_range", dict(luma_offset=sr.luma_offset, luma_excursion=sr.luma_excursion, color_diff_offset=sr.color_diff_offset, color_diff_excursion=sr.color_diff_excursion)))
     out.append(("signal_range", dict(luma_offset=3, luma_excursion=500, color_diff_offset=200, color_diff_excursion=333)))
@@ -146,7 +150,7 @@ def check(cfg):
     per = perturbations(vp)
     for i in var:
         vp.update(per[i][1])
-    if vp["clean_width"] + vp["left_offset"] > vp["frame_width"] or vp["clean_height"] + vp["top_offset"] > vp["frame_height"] or vp["clean_width"] <= 0 or vp["clean_height"] <= 0:
+    if vp["clean_width"] + vp["left_offset"] > vp["frame_width"] or vp["clean_height"] + vp["top_offset"] > vp["frame_height"] or vp["clean_width"] < 0 or vp["clean_height"] < 0:
         return 0, [], False
     sub_w = 2 if int(vp["color_diff_format_index"]) in (1, 2) else 1
     sub_h = (2 if int(vp["color_diff_format_index"]) == 2 else 1) * (2 if pcm == 1 else 1)
